@@ -53,9 +53,18 @@ def chunk_of(layname, prefer_quick=True):
 #   shards : processes per bin per tier
 
 
-def S(body, chunks=LAYOUT, n=None, shards=None, args=None, args_tier=None, gen=None, gen_args=None):
+def S(body, chunks=LAYOUT, n=None, shards=None, args=None, args_tier=None, gen=None, gen_args=None, only_profiles=None):
     return dict(body=body, chunks=chunks, n=n or {"quick": 1000, "thorough": 8000},
-                shards=shards or {"quick": 4, "thorough": 2}, args=args or [], args_tier=args_tier or {}, gen=gen, gen_args=gen_args or {})
+                shards=shards or {"quick": 4, "thorough": 2}, args=args or [], args_tier=args_tier or {}, gen=gen, gen_args=gen_args or {},
+                only_profiles=only_profiles)
+
+
+def LIGHT(body, n, gen=None):
+    """quick tier only: a LIGHT pass over ALL 506 layouts (the 16 thorough bins, release profile, small n) next to the
+    boundary-heavy 106-layout workload, so that a slip confined to one fractional-bit count outside the quick set
+    (e.g. a digit budget wrong for Frac = 103 only: seeded change C09-G) is inside the reach of the every-change check"""
+    return S(body, chunks={"quick": ALL_CHUNKS, "thorough": []}, n={"quick": n, "thorough": 0}, shards={"quick": 1, "thorough": 1},
+             gen=gen, only_profiles=["release"])
 
 
 ST_ARITH = S("arith", n={"quick": 1500, "thorough": 12000}, args_tier={"thorough": ["--exhaustive", "1"]})
@@ -77,22 +86,33 @@ ST_FMT_DIR = S("fmt", n={"quick": 100, "thorough": 600}, shards={"quick": 1, "th
 ST_PARSE = S("parse", n={"quick": 500, "thorough": 2500}, gen=os.path.join(ROOT, "gen", "c08.py"), gen_args={"thorough": ["--exhaustive", "1"]})
 ST_PARSE_SMALL = S("parse", n={"quick": 150, "thorough": 800}, gen=os.path.join(ROOT, "gen", "c08.py"))
 
+LT_ARITH = LIGHT("arith", 40)
+LT_ROUND = LIGHT("round", 300)
+LT_REM = LIGHT("rem", 100)
+LT_CONVI = LIGHT("convi", 12)
+LT_FLT = LIGHT("flt", 150)
+LT_CODEC = LIGHT("codec", 60)
+LT_FMT = LIGHT("fmt", 40)
+LT_PARSE = LIGHT("parse", 60, gen=os.path.join(ROOT, "gen", "c08.py"))
+LT_WRAP = LIGHT("wrap", 24)
+LIGHT_RULE = ("; the quick tier adds a light pass (release profile, few events per layout plus the systematic blocks) over ALL 506 layouts")
+
 GEN_RULE = ("operands come from the seeded in-driver generator: boundary constants (0, +-ulp, +-1, MIN, MAX, 2^k+-1), log-uniform "
             "magnitudes, sparse/dense/limb-structured patterns and result-targeted partners; ")
 
 PLANS = {
-    "C01": dict(exhaustive={"thorough": True}, module="arith", streams=[ST_ARITH], profiles=["release", "checked"],
+    "C01": dict(exhaustive={"thorough": True}, module="arith", streams=[ST_ARITH, LT_ARITH], profiles=["release", "checked"],
                 rule="one event = one (layout, op, operand pair) with all API forms of the op; " + GEN_RULE +
                      "partners are solved so the exact product/quotient lands within 2 ulp of a range bound or of zero; a coverage "
                      "cell is (layout, op, class(a), class(b), fits/over+/over-/div0); distinct_nontrivial counts distinct cells whose "
                      "operands are neither 0 nor 1.0 (an undercount of distinct inputs)",
                 need_ops=["mul", "div", "mul_r", "div_r"]),
-    "C02": dict(exhaustive={"thorough": True}, module="arith", streams=[ST_ARITH], profiles=["release", "checked"],
+    "C02": dict(exhaustive={"thorough": True}, module="arith", streams=[ST_ARITH, LT_ARITH], profiles=["release", "checked"],
                 rule="one event = one (layout, op, operands) with the checked/saturating/wrapping/overflowing/plain forms of the op; "
                      + GEN_RULE + "a coverage cell is (layout, op, class(a), class(b), fits/over+/over-/div0); distinct_nontrivial "
                      "counts distinct cells whose operands are neither 0 nor 1.0",
                 need_ops=["neg", "abs", "add", "sub", "mul", "div", "mul_int", "div_int"]),
-    "C03": dict(exhaustive={"thorough": True}, module="cmpm", streams=[ST_CONVI, ST_XTYPE, ST_FLT, ST_X8_CMP], profiles=["release", "checked"],
+    "C03": dict(exhaustive={"thorough": True}, module="cmpm", streams=[ST_CONVI, ST_XTYPE, ST_FLT, ST_X8_CMP, LT_CONVI, LT_FLT], profiles=["release", "checked"],
                 quick_profiles=["release"],
                 rule="one event = one (lhs layout, lhs value, rhs type, rhs value) with == != < <= > >= partial_cmp in both operand "
                      "orders (same-type events add cmp/max/min and the Hash byte stream); rhs is one of the 12 primitive integer "
@@ -100,8 +120,8 @@ PLANS = {
                      "fixed layout (100 family pairs x 6 (quick) / 40 (thorough) Frac combinations), chosen equal in value, differing "
                      "only in bits the lhs cannot hold, or lying in (MAX, 2*MAX] / [2*MIN, MIN) of the lhs; a coverage cell is "
                      "(type pair, class(lhs), ordering outcome, rhs in-range/overflowing/lost-bits class); non-trivial = no operand 0",
-                need_ops=["cmp:i8", "cmp:u128", "cmpff", "cmpsame", "cmpf32", "cmpf64"], nlay={"quick": 106 + 600, "thorough": 506 + 4000}),
-    "C04": dict(exhaustive={"thorough": True}, module="conv", streams=[ST_CONVI, ST_XTYPE, ST_FROMTO, ST_X8_CONV], profiles=["release", "checked"], probes=True,
+                need_ops=["cmp:i8", "cmp:u128", "cmpff", "cmpsame", "cmpf32", "cmpf64"], nlay={"quick": 506 + 600, "thorough": 506 + 4000}),
+    "C04": dict(exhaustive={"thorough": True}, module="conv", streams=[ST_CONVI, ST_XTYPE, ST_FROMTO, ST_X8_CONV, LT_CONVI], profiles=["release", "checked"], probes=True,
                 rule="one event = one source value converted through from_num/to_num and their checked_/saturating_/wrapping_/"
                      "overflowing_ forms in both spellings: integer<->fixed for all 12 primitive integer types on every layout, "
                      "bool->fixed, and fixed->fixed over 100 family pairs x 6 (quick) / 40 (thorough) Frac combinations; sources sit at "
@@ -111,8 +131,8 @@ PLANS = {
                      "probes one step OUTSIDE the region are compiled on every run: each must be refused by the compiler, one that "
                      "compiles is executed and its events are judged like any other; "
                      "a coverage cell is (type pair, class(source), fits/over+/over- [+lost bits]); non-trivial = source != 0",
-                need_ops=["fi:i8", "fi:u128", "fb", "ff", "fx:from", "fx:lossy", "fxf", "zf", "zb", "zi:i8", "zi:u128"], nlay={"quick": 106 + 599 + 389, "thorough": 506 + 3900 + 389}),
-    "C05": dict(exhaustive={"thorough": True}, module="fltm", streams=[ST_FLT, ST_FROMTO], profiles=["release", "checked"],
+                need_ops=["fi:i8", "fi:u128", "fb", "ff", "fx:from", "fx:lossy", "fxf", "zf", "zb", "zi:i8", "zi:u128"], nlay={"quick": 506 + 599 + 389, "thorough": 506 + 3900 + 389}),
+    "C05": dict(exhaustive={"thorough": True}, module="fltm", streams=[ST_FLT, ST_FROMTO, LT_FLT], profiles=["release", "checked"],
                 rule="one event = one (layout, fixed value, float bit pattern) with from_num and its four overflow forms, to_num::<f32|f64> "
                      "and its forms, LossyFrom, the az cast traits, and From<F> for f32/f64 on the generated lossless pairs (fromto driver); floats are exact grid points, exact ties between grid points and the adjacent floats, range "
                      "ends +- half an ulp, +-0, smallest/largest subnormals, MIN_POSITIVE, the top binade up to MAX, +-inf, quiet/signalling "
@@ -120,7 +140,7 @@ PLANS = {
                      "24th/53rd significant bit; a coverage cell is (layout, float width, float class, fits/over/tie/exact, class of the "
                      "float result, rounded/exact); non-trivial = neither side zero",
                 need_ops=["fl32", "fl64", "zl32", "zl64", "fxf32", "fxf64"]),
-    "C08": dict(exhaustive={"thorough": True}, module="parsem", streams=[ST_PARSE], profiles=["release", "checked"],
+    "C08": dict(exhaustive={"thorough": True}, module="parsem", streams=[ST_PARSE, LT_PARSE], profiles=["release", "checked"],
                 rule="one event = one (layout, radix, literal) parsed by from_str* and its saturating_/wrapping_/overflowing_ forms; literals "
                      "are written by gen/c08.py from EXACT radix expansions of grid points, rounding ties (2R+1)/2^(f+1), quarter points and "
                      "range ends +- half an ulp of the target layout: the expansion itself, proper prefixes, the expansion with 0..0d appended "
@@ -130,7 +150,7 @@ PLANS = {
                      "digits); a coverage cell is (layout, radix, grid/tie/hair-from-tie/near-tie/generic/malformed, fits/over+/over-, digit "
                      "count class, sign); non-trivial = well-formed and non-zero",
                 need_ops=["ps10", "ps2", "ps8", "ps16"]),
-    "C09": dict(exhaustive={"thorough": True}, module="fmtm", streams=[ST_FMT, ST_FMT_DIR], profiles=["release", "checked"],
+    "C09": dict(exhaustive={"thorough": True}, module="fmtm", streams=[ST_FMT, ST_FMT_DIR, LT_FMT], profiles=["release", "checked"],
                 rule="one event = one (layout, value, trait, flag set, width, precision) formatted through a trait object, plus one round-trip "
                      "event (to_string, FromStr of it) per value; traits Display/Debug/Binary/Octal/LowerHex/UpperHex, flag sets "
                      "{none,+,#,0,+#0,<,^,>,*^,*<+#}, widths {none,0,1,7,40,150}, precisions {none,0,1..4,around frac bits,<60,<=200}; values are "
@@ -140,7 +160,7 @@ PLANS = {
                      "round-half-even(|value| * radix^d); a coverage cell is (layout, trait, class(value), flag set, width?, precision class, "
                      "exact/rounded); non-trivial = value != 0",
                 need_ops=["fr", "fm:Display", "fm:Debug", "fm:Binary", "fm:Octal", "fm:LowerHex", "fm:UpperHex"]),
-    "C18": dict(module="wrapm", module_by_body={"parse": "parsem"}, streams=[ST_WRAP, ST_PARSE_SMALL], profiles=["checked", "release"],
+    "C18": dict(module="wrapm", module_by_body={"parse": "parsem"}, streams=[ST_WRAP, ST_PARSE_SMALL, LT_WRAP], profiles=["checked", "release"],
                 rule="one event = one Wrapping<F> operation in all its spellings (w op r, &w op r, w op &r, &w op &r, w op= r, w op= &r): "
                      "neg, not, + - * / %, & | ^, * / % by an integer, << >> with all 12 amount types (negative, >= width, near the "
                      "amount type's maximum), div_euclid/rem_euclid(+_int), sum/product over 0-5 elements by value and by reference, 23 "
@@ -150,7 +170,7 @@ PLANS = {
                      "the checked profile is the deciding one (a forwarder wired to the plain operator only shows with checks on); a coverage "
                      "cell is (layout, event kind, op, operand classes, fits/overflows/div0); non-trivial = operands non-zero",
                 need_ops=["wneg", "wnot", "wbin", "wbit", "wint", "wsh", "weu", "weui", "wsum", "wmeth", "wfrom", "wprog", "ps10", "ps16"]),
-    "C10": dict(module="codecm", streams=[ST_CODEC], profiles=["release", "checked"], miri=True,
+    "C10": dict(module="codecm", streams=[ST_CODEC, LT_CODEC], profiles=["release", "checked"], miri=True,
                 rule="one event = one (layout, bit pattern) with encode / encoded_size / max_encoded_len / the integer's own encode / decode of "
                      "the little-endian bytes (built by the driver from the raw pattern, not from the library's output) / decode of every "
                      "proper prefix / decode with trailing junk / le,be,ne byte views and their inverses / from_bits(to_bits) / serde_json "
@@ -158,13 +178,13 @@ PLANS = {
                      "patterns for 8-bit layouts) so that a Frac-dependent encoding is visible; a coverage cell is (layout, class(pattern)); "
                      "non-trivial = pattern != 0",
                 need_ops=["cd"]),
-    "C06": dict(exhaustive={"thorough": True}, module="round", streams=[ST_ROUND], profiles=["release", "checked"],
+    "C06": dict(exhaustive={"thorough": True}, module="round", streams=[ST_ROUND, LT_ROUND], profiles=["release", "checked"],
                 rule="one event = one (layout, value) with all 23 rounding-method outcomes; values are boundary constants, structured "
                      "patterns and integer/half-integer neighbours (k, k+-ulp, k+1/2, k+1/2+-ulp) at both ends of the range; thorough "
                      "enumerates every value of all 8- and 16-bit layouts; a coverage cell is (layout, class(value), fraction class "
                      "int/lo/tie/hi, which of ceil/floor/round/ties-even overflow); non-trivial = value != 0 and fraction != 0",
                 need_ops=["round"]),
-    "C07": dict(exhaustive={"thorough": True}, module="rem", streams=[ST_REM], profiles=["release", "checked"],
+    "C07": dict(exhaustive={"thorough": True}, module="rem", streams=[ST_REM, LT_REM], profiles=["release", "checked"],
                 rule="one event = one (layout, dividend, divisor) with all remainder / Euclidean forms (fixed or integer divisor); divisors "
                      "include 0, +-1 ulp, MIN, the dividend and its negation, and partners solved so the quotient lands within 2 ulp of a "
                      "range bound; thorough enumerates all operand pairs of the 18 eight-bit layouts; a coverage cell is (layout, op, "
@@ -241,14 +261,18 @@ def plan(prop, tier, seed):
     if prop in PLANS:
         P = PLANS[prop]
         profiles = P["profiles"] if tier == "thorough" else P.get("quick_profiles", P["profiles"])
-        bins = set()
+        bins = {p: set() for p in profiles}
         for st in P["streams"]:
-            bins.update(stream_bins(st, tier))
+            for p in profiles:
+                if not st.get("only_profiles") or p in st["only_profiles"]:
+                    bins[p].update(stream_bins(st, tier))
 
         def jobs(bin_path):
             js = []
             for prof in profiles:
                 for st in P["streams"]:
+                    if st.get("only_profiles") and prof not in st["only_profiles"]:
+                        continue
                     shards = st["shards"][tier]
                     for b in stream_bins(st, tier):
                         for s in range(shards):
@@ -281,10 +305,13 @@ def plan(prop, tier, seed):
             if P.get("probes"):
                 js.append(dict(kind="probe", body="probes", profile="release", mon=[PY, MON, P["module"], prop, "release"], timeout=1800))
             return js
-        nlay = P.get("nlay", {"quick": 106, "thorough": 506})[tier]
+        has_light = any(st.get("only_profiles") and st["chunks"].get("quick") for st in P["streams"])
+        nlay = P.get("nlay", {"quick": 506 if has_light else 106, "thorough": 506})[tier]
         out = dict(P)
-        out.update(build={p: set(bins) for p in profiles}, jobs=jobs, floor=_floor(P, tier, nlay), assumptions=ASSUME,
+        out.update(build={p: set(bins[p]) for p in profiles}, jobs=jobs, floor=_floor(P, tier, nlay), assumptions=ASSUME,
                    body=P["streams"][0]["body"])
+        if has_light and tier == "quick":
+            out["rule"] = P["rule"] + LIGHT_RULE
         if tier == "thorough" and prop in EXHAUSTIVE_NOTE:
             out["rule"] = P["rule"] + "; EXHAUSTIVE scope of the thorough tier (what exhaustive=true refers to): " + EXHAUSTIVE_NOTE[prop]
         if P.get("sweeps") and tier == "thorough":
@@ -396,7 +423,8 @@ def setup_build():
     for prop, P in PLANS.items():
         for prof in P.get("quick_profiles", P["profiles"]):
             for st in P["streams"]:
-                bins[prof].update(stream_bins(st, "quick"))
+                if not st.get("only_profiles") or prof in st["only_profiles"]:
+                    bins[prof].update(stream_bins(st, "quick"))
     try:
         import plans_extra
         plans_extra.setup_build(bins)
